@@ -3,6 +3,8 @@ package main
 import (
 	"encoding/hex"
 	"fmt"
+	"math"
+	"strings"
 	"os"
 	"runtime"
 	"time"
@@ -36,7 +38,7 @@ func runMux(seed uint64, n int, out string, rc *Case) {
 	viol := func(what string, c Case) {
 		sum.Violations = append(sum.Violations, map[string]any{"what": what, "case": c})
 	}
-	checkOne := func(raw []byte, origin string) {
+	checkOne := func(raw []byte, origin string) bool {
 		var acc bool
 		var err error
 		g := guardedOnce(func() { acc, err = m.check(raw, r.Chance(10)) })
@@ -47,12 +49,16 @@ func runMux(seed uint64, n int, out string, rc *Case) {
 			sum.DistinctNontrivial++
 		}
 		sum.Count("mux:checktx", cls)
+		if strings.HasPrefix(origin, "fee:") {
+			sum.Count("mux:fee-edge", origin+" "+cls)
+		}
 		cs := Case{Kind: "mux", Target: "check", Data: hex.EncodeToString(raw), Origin: origin}
 		if err != nil {
 			viol(fmt.Sprintf("mux CheckTx: panic escaped the multiplexer: %v", err), cs)
 		} else if v := g.violation(); v != "" {
 			viol("mux CheckTx: "+v, cs)
 		}
+		return acc
 	}
 	deliverOne := func(raws [][]byte, origin string) {
 		var codes []uint32
@@ -154,6 +160,19 @@ func runMux(seed uint64, n int, out string, rc *Case) {
 			m.muxResync()
 		}
 		checkOne(muxdrv.Sign(k, roothash.NewEvidenceTx(m.muxNonce(k.Address()), muxdrv.Fee(10, muxBigGas), &roothash.Evidence{ID: m.rt1})), "evidence:empty")
+		// fee edge cases on a plain transfer, deterministically: (amount, gas) in {0, 1, max}^2 and a nil fee
+		// (an accepted CheckTx advances the account's nonce in the check state)
+		nonce := m.muxNonce(k.Address())
+		m.muxResync()
+		for _, amt := range []uint64{0, 1, 1000, math.MaxUint64} {
+			for _, gas := range []uint64{0, 1, muxdrv.DefaultGas, math.MaxUint64} {
+				tx := muxdrv.TxTransfer(nonce, muxdrv.Fee(amt, gas), m.g.Accounts[1].Address, 1)
+				if checkOne(muxdrv.Sign(k, tx), fmt.Sprintf("fee:%d/%d", amt, gas)) {
+					nonce++
+				}
+			}
+		}
+		checkOne(muxdrv.Sign(k, muxdrv.TxTransfer(nonce, nil, m.g.Accounts[1].Address, 1)), "fee:nil")
 		sum.Count("mux:structured", "roothash.Evidence")
 	}
 	g0 := runtime.NumGoroutine()
